@@ -124,17 +124,51 @@ def exc_info_of(x):
 
 
 class Clock:
+    """virtual time; with the realisation hint ['volatile', m] the time-dependent contents keep ONE chunk list each, whose time
+    chunk is rewritten in place whenever the clock moves (`buffers`)"""
     def __init__(self):
-        self.t = 0
+        self.buffers = []
+        self._t = 0
+
+    @property
+    def t(self):
+        return self._t
+
+    @t.setter
+    def t(self, v):
+        self._t = v
+        for buf in self.buffers:
+            buf[1] = b'%d' % v
 
 
-def make_content(w, uc, clock):
+def make_content(w, uc, clock, owner=None):
     from testtools.content import Content
     from testtools.content_type import ContentType
     cid, lazy = uc
+    volatile = getattr(w, 'volatile', 0)
     if lazy:
+        if volatile:
+            # the same bytes at every moment as the callable below, handed out as the same list object every time
+            buf = [b'lazy %d ' % cid, b'%d' % clock.t]
+            clock.buffers.append(buf)
+            return Content(ContentType('application', 'x-verif-lazy'), lambda: buf)
         return Content(ContentType('application', 'x-verif-lazy'), lambda: [b'lazy %d ' % cid, b'%d' % clock.t])
     # non-UTF-8 bytes, empty chunk, several chunks
+    if volatile:
+        # realisation hint ['volatile', m]: the content hands out its own chunk buffer (one list object); a fixture recycles the
+        # buffer in place when it is cleaned up (m = 1 cleared, 2 appended to, 3 chunks replaced) - after the point at which its
+        # details are due (gather_details runs before fixture.cleanUp, also when setUp failed)
+        chunks = [b'user %d' % cid, b'', b' \xff\xfe']
+        if owner is not None:
+            def recycle():
+                if volatile == 1:
+                    chunks.clear()
+                elif volatile == 2:
+                    chunks.append(b' recycled')
+                else:
+                    chunks[:] = [b'user %d' % (cid + 1000), b'', b' \xff\xfe']      # (reads as another content)
+            owner.addCleanup(recycle)
+        return Content(ContentType('application', 'octet-stream'), lambda: chunks)
     return Content(ContentType('application', 'octet-stream'), lambda: [b'user %d' % cid, b'', b' \xff\xfe'])
 
 
@@ -223,9 +257,16 @@ def make_sink(w, flavour, log):
 
     def out(kind):
         def f(self, test, *a, **kw):
+            # the full call as passed, with the extended signatures add*(test, err|reason=None, details=None) and
+            # addSuccess / addUnexpectedSuccess(test, details=None)
             details = kw.get('details')
-            if details is None and len(a) >= 2:
-                details = a[1]
+            pos_details = 0 if kind in ('success', 'uxs') else 1
+            if details is None and len(a) > pos_details:
+                details = a[pos_details]
+            first = (a[0] if a and pos_details == 1 else None) if kw.get('err') is None else kw['err']
+            if details is not None and (first is not None or kw.get('reason') is not None):
+                log.append(['outcome', kind + '-with-err-and-details', []])        # no protocol passes both
+                return
             reason = kw.get('reason')
             if kind == 'skip' and reason is None and a and isinstance(a[0], str):
                 reason = a[0]
@@ -271,12 +312,18 @@ def make_sink(w, flavour, log):
         ns = {}
 
         def add(kind):
+            # the real signatures (unittest 2.6 / 2.7, trial's reporter): one positional argument after the test except for
+            # addSuccess / 2.7's addUnexpectedSuccess - a call with more raises TypeError as the real classes do
             def f(self, test, *a):
+                if len(a) != (0 if kind in ('success', 'uxs') else 1):
+                    raise TypeError('%s() takes %d positional arguments' % (kind, 2 if kind in ('success', 'uxs') else 3))
                 d = []
                 if kind == 'skip' and a and isinstance(a[0], str):
                     m = re.match(r'^(?:reason-|x)(\d+)$', a[0])
                     d = [[[2], ['reason', int(m.group(1))]]] if m else []   # anything else is the details-to-text rendering
-                    if a[0] == '' and w.empty_reason_tag is not None:
+                    # ('' is also the text rendering of a details dict without entries, which is what a user's reporter hands over when
+                    # nothing attached a reason: there it is the empty reason only if the test carries a reason detail)
+                    if a[0] == '' and w.empty_reason_tag is not None and (not getattr(w, 'in_user_reporter', False) or 'reason' in test.getDetails()):
                         d = [[[2], ['reason', w.empty_reason_tag]]]
                 log.append(['outcome', kind, d])
             return f
@@ -292,8 +339,9 @@ def make_sink(w, flavour, log):
             ns['stopTestRun'] = ev('stopTestRun')
         if flavour == 'twisted':
             ns['done'] = lambda self: None
-            ns['addExpectedFailure'] = lambda self, test, failure, todo=None: log.append(['outcome', 'xfail', []])
-            ns['addUnexpectedSuccess'] = lambda self, test, todo=None: log.append(['outcome', 'uxs', []])
+            # (`todo=None` as in trial: anything that arrives there is part of the call and is recorded)
+            ns['addExpectedFailure'] = lambda self, test, failure, todo=None: log.append(['outcome', 'xfail' if todo is None else 'xfail-with-todo', []])
+            ns['addUnexpectedSuccess'] = lambda self, test, todo=None: log.append(['outcome', 'uxs' if todo is None else 'uxs-with-todo', []])
         return type('Sink_' + flavour, (object,), ns)()
     if flavour == 'stream':
         from testtools.testresult.real import ExtendedToStreamDecorator
@@ -341,7 +389,7 @@ def build_case(w, prog, log, clock, scratch, sink_factory, hints=()):
         class Fx(w.fixtures.Fixture):
             def _setUp(self):
                 for n, uc in ds:
-                    self.addDetail(render_name(n), make_content(w, uc, clock))
+                    self.addDetail(render_name(n), make_content(w, uc, clock, owner=self))
                 if fail is not None:
                     # cleanups registered before the failure that raise while fixtures unwinds the half-set-up fixture
                     # (they run last-registered first, so register them in reverse)
@@ -382,6 +430,21 @@ def build_case(w, prog, log, clock, scratch, sink_factory, hints=()):
         _, sid, acts, term = st
         clock.t += 1
         log.append(['stage', sid])
+        uniq = next((h[1] for h in hints if isinstance(h, list) and h[0] == 'uniq'), 0)
+        if uniq:
+            # realisation hint ['uniq', m]: every stage draws unique ids (m = 1 getUniqueInteger, 2 getUniqueString, 3 both) and
+            # compares them with the k-th value of a counter that starts at 1 in every run (`assertEqual(k, getUniqueInteger())`):
+            # a run is a replay of the previous one only if the helper's counter is per run
+            drawn = []
+            if uniq in (1, 3):
+                drawn.append(case.getUniqueInteger())
+            if uniq in (2, 3):
+                u = case.getUniqueString('attr')
+                drawn.append(int(u.rsplit('-', 1)[1]) if re.match(r'^attr-\d+$', u) else -1)
+            for n in drawn:
+                expected, w.uniq_next = w.uniq_next, w.uniq_next + 1
+                if n != expected:
+                    raise w.make_exc(['failure', 90 + min(9, abs(n - expected))])
         # realisation hint ['late-upcall', sid]: setUp / tearDown do their own work first and upcall afterwards
         late = upcall is not None and ['late-upcall', sid] in hints
         if upcall is not None and not late:
@@ -500,7 +563,11 @@ def build_case(w, prog, log, clock, scratch, sink_factory, hints=()):
                   'uxs': case._report_unexpected_success, 'error': case._report_error}[o]
         else:
             def fn(c, result, e, _m=meth):
-                getattr(result, _m)(c, details=c.getDetails())
+                w.in_user_reporter = True
+                try:
+                    getattr(result, _m)(c, details=c.getDetails())
+                finally:
+                    w.in_user_reporter = False
         hcls = {'exc': Exception, 'base': BaseException}.get(cls) if isinstance(cls, str) else None
         if ['late-handlers'] in hints:
             pending_handlers.append((hcls or w.cls(cls), fn))
@@ -622,6 +689,7 @@ def run_program(inp):
     hints = list(inp[2]) if len(inp) > 2 else []
     w.empty_reason_tag = next((h[1] for h in hints if isinstance(h, list) and h[0] == 'empty-reason'), None)
     w.object_reason_tag = next((h[1] for h in hints if isinstance(h, list) and h[0] == 'object-reason'), None)
+    w.volatile = next((h[1] for h in hints if isinstance(h, list) and h[0] == 'volatile'), 0)
     flavour = prog[-1]
     attrs0 = prog[8]
     log = []
@@ -638,6 +706,7 @@ def run_program(inp):
     for _ in range(runs):
         del log[:]
         clock.t = 0
+        w.uniq_next = 1
         raised = None
         try:
             if flavour == 'none_':
@@ -876,6 +945,12 @@ def gen_input(rng, focus='all'):
         hints.append(['late-handlers'])
     if rng.random() < 0.15:
         hints.append(['clone'])
+    if rng.random() < (0.35 if runs > 1 else 0.1):
+        hints.append(['uniq', rng.randrange(1, 4)])
+    if any(a[0] in ('useFixture', 'addDetail', 'expectThat') for st in all_stages(prog) for a in st[2]) or \
+            any(isinstance(st[3], list) and st[3][0] == 'fixtureFail' for st in all_stages(prog)):
+        if rng.random() < 0.35:
+            hints.append(['volatile', rng.randrange(1, 4)])
     return [prog, runs, hints] if hints else [prog, runs]
 
 
@@ -913,7 +988,7 @@ def exc_kinds(prog):
 
 def features(inp, traces):
     prog, runs = inp[0], inp[1]
-    f = ['flavour=' + prog[-1], 'runs=%d' % runs] + (['hint:fixture-getDetails-raises'] if len(inp) > 2 and any(isinstance(h, int) for h in inp[2]) else []) + ['hint:skip-decorator-%d' % h[1] for h in (inp[2] if len(inp) > 2 else []) if isinstance(h, list) and h[0] == 'skip'] + ['hint:%s' % h[0] for h in (inp[2] if len(inp) > 2 else []) if isinstance(h, list) and h[0] in ('late-upcall', 'runner', 'empty-reason', 'object-reason', 'kwfn', 'late-handlers', 'clone')] + ['hint:retval-%d' % h[2] for h in (inp[2] if len(inp) > 2 else []) if isinstance(h, list) and h[0] == 'retval'] + ['hint:scratch-%d' % h[1] for h in (inp[2] if len(inp) > 2 else []) if isinstance(h, list) and h[0] == 'scratch'] + ['hint:helper-raises' for h in (inp[2] if len(inp) > 2 else []) if isinstance(h, list) and h[0] == 'api'][:1]
+    f = ['flavour=' + prog[-1], 'runs=%d' % runs] + (['hint:fixture-getDetails-raises'] if len(inp) > 2 and any(isinstance(h, int) for h in inp[2]) else []) + ['hint:skip-decorator-%d' % h[1] for h in (inp[2] if len(inp) > 2 else []) if isinstance(h, list) and h[0] == 'skip'] + ['hint:%s' % h[0] for h in (inp[2] if len(inp) > 2 else []) if isinstance(h, list) and h[0] in ('late-upcall', 'runner', 'empty-reason', 'object-reason', 'kwfn', 'late-handlers', 'clone', 'volatile', 'uniq')] + ['hint:retval-%d' % h[2] for h in (inp[2] if len(inp) > 2 else []) if isinstance(h, list) and h[0] == 'retval'] + ['hint:scratch-%d' % h[1] for h in (inp[2] if len(inp) > 2 else []) if isinstance(h, list) and h[0] == 'scratch'] + ['hint:helper-raises' for h in (inp[2] if len(inp) > 2 else []) if isinstance(h, list) and h[0] == 'api'][:1]
     sts = list(all_stages(prog))
     faulty = [s for s in sts if s[3] != 'ret']
     f.append('stages=%s' % (len(sts) if len(sts) < 8 else '8+'))
